@@ -53,7 +53,8 @@ func (a *Auth) ParseAuthorization(authStr string) (err error) {
 			return err
 		}
 
-		tmp := strings.Split(string(authInfo), ":")
+		// RFC 2617: user-pass = userid ":" password, only the userid cannot contain a colon
+		tmp := strings.SplitN(string(authInfo), ":", 2)
 		if len(tmp) != 2 {
 			return fmt.Errorf("invalid Authorization:%s", authStr)
 		}
